@@ -7,6 +7,8 @@ import Mkdb.Proofs.ReplayCkpt
 import Mkdb.Proofs.ReplayCounter
 import Mkdb.Proofs.BaseCase2
 import Mkdb.Proofs.PtSelfFree6
+import Mkdb.Proofs.Counters6
+import Mkdb.Proofs.Counters8
 /-!
 # C02 — acknowledged statements survive a crash between statements
 
@@ -238,6 +240,42 @@ theorem C02_never_reuses_a_row_id (log : List WalRec) (s s' : Store) (h : replay
     (∀ r ∈ log, r.op = c_OpInsert → r.cell ≤ s'.hdr.lastKey) ∧ s.hdr.lastKey ≤ s'.hdr.lastKey :=
   replayAll_counter log s s' h
 
+/-- **C02.unknown_operation_code_is_ignored**: the `switch` of `WALBatch.replay` has no default.  A log
+record whose operation code is none of INSERT, UPDATE, DELETE (the engine never writes one; a damaged or
+foreign log can hold one) raises the LSN counter to its LSN, has its page fetched (`s1`: the store after
+that fetch), and changes nothing else - no cell, no page LSN, no dirty bit, not the row-id counter - and
+the replay goes on with the next record.  (Before this repair the model treated every code from 3 up as a
+DELETE.)  No hypothesis on the store. -/
+theorem C02_unknown_operation_code_is_ignored (r : WalRec) (s : Store)
+    (h0 : r.op ≠ c_OpInsert) (h1 : r.op ≠ c_OpUpdate) (h2 : r.op ≠ c_OpDelete) (node : Node) (s1 : Store)
+    (hf : fetch r.page { s with hdr := { s.hdr with nextLSN := max s.hdr.nextLSN r.lsn } } = .ok node s1) :
+    replayOne r s = (s1, none, false) ∧
+    ∀ rest, replayAll (r :: rest) s = replayAll rest s1 := by
+  have e0 : (r.op == c_OpInsert) = false := by simpa using h0
+  have e1 : (r.op == c_OpUpdate) = false := by simpa using h1
+  have e2 : (r.op == c_OpDelete) = false := by simpa using h2
+  have e : replayOne r s = (s1, none, false) := by
+    unfold Engine.replayOne
+    simp only [e0, e1, e2, Bool.false_eq_true, if_false]
+    rw [hf]
+    simp only
+    split <;> rfl
+  refine ⟨e, fun rest => ?_⟩
+  show (match replayOne r s with
+    | (s', none, false) => replayAll rest s'
+    | res => res) = _
+  rw [e]
+
+/-- the record of the Go run `TestR1WalOp` (operation code 5, LSN 50, on the leaf of the one row): the row
+is still there and not deleted, the page keeps LSN 10 and stays clean, the LSN counter is 50 -/
+example :
+    let l : Leaf := ⟨12288, 10, false, false, 0, 0, [⟨11, false, [5, 0, 0, 0]⟩]⟩
+    let s : Store := { hdr := { lastKey := 11, nextLSN := 11, nextFree := 16384 }, disk := [(12288, .leaf l)] }
+    let s' := (replayAll [⟨5, 50, 12288, 11, []⟩] s).1
+    (replayAll [⟨5, 50, 12288, 11, []⟩] s).2 = (none, false) ∧
+    view s' 12288 = some (.leaf l, false) ∧ s'.hdr.nextLSN = 50 ∧ s'.hdr.lastKey = 11 := by
+  decide
+
 end Mkdb.Store
 
 namespace Mkdb.Store
@@ -400,3 +438,194 @@ theorem C02_each_side_condition_is_needed :
   ⟨freshM_is_needed, ptSelf_is_needed⟩
 
 end Mkdb.Store
+
+/-! ## the header counters: natural numbers in the model, `uint32` / `uint64` in the code (W16) -/
+
+namespace Mkdb.Store
+open Mkdb.Engine Mkdb.Tree Mkdb.Page Mkdb.Generated
+
+/-- **C02.one_tree_insert_allocates_at_most_66_pages** (every store - also corrupt pages -, every outcome):
+`BTree.insertKey` moves neither the row-id counter nor the LSN counter, never lowers the allocation frontier
+and raises it by at most `insertBytes = 270336 = pageSize × (treeFuel + 2)` bytes: one page per level
+that splits (the leaf and at most `treeFuel = 64` internal levels: below that fuel the model reports a
+hang, not a state) and one for a new root.  `BTree.insert` (`btInsert`) adds exactly one row id and one
+LSN - also when the insertion is refused (`keyExists`, `rowTooLarge`). -/
+theorem C02_one_tree_insert_allocates_at_most_66_pages (bt : BT) (key lsn : Nat) (value : Bytes) :
+    Grows (Store.insertKey bt key lsn value) 0 0 270336 ∧ 270336 = c_pageSize * (treeFuel + 2) ∧
+    Grows (Store.btInsert bt value) 1 1 270336 :=
+  ⟨Grows.insertKey bt key lsn value, rfl, Grows.btInsert bt value⟩
+
+/-- **C02.insert_advances_the_counters_by_at_most** (`EvaluateInsert`, every database, every outcome that
+leaves a database - `ResI`): an INSERT statement of `n` rows never lowers a counter, raises the row-id
+counter by at most `n`, the LSN counter by at most `2 n` (a row whose insert moved the root of its table
+logs a second record, for the catalog), the allocation frontier by at most `66 n` pages, and does not touch
+the header in the data file.  Accepted: the log grew by records that account for the LSNs one by one
+(`Logged`: the LSN counter advanced by exactly the number of records, the row-id counter by exactly the
+number of INSERT records).  REFUSED (a later row is invalid, `rowTooLarge` inside the tree insert, …): the
+log is the old one, but the counters keep what the rows tried before the error consumed - refused
+statements use up row ids. -/
+theorem C02_insert_advances_the_counters_by_at_most (db : Engine.DB) (table : Bytes) (cols : List Bytes)
+    (rows : List (List Tuple.Val)) :
+    ResI db (Engine.evalInsert db table cols rows) rows.length (2 * rows.length) (270336 * rows.length) :=
+  evalInsert_counters db table cols rows
+
+/-- **C02.update_and_delete_move_only_the_lsn_counter** (`EvaluateUpdate`, `EvaluateDelete`, every database,
+every outcome - `ResUD`): neither the row-id counter nor the allocation frontier nor the header in the data
+file moves; the LSN counter does not go down; accepted: it advanced by exactly the number of records
+appended to the log - one per row version written.  (No bound in terms of the statement text exists: the
+number of rows a WHERE clause selects is a property of the table; `RelationService.Update` rewrites EVERY
+cell of the scan that carries the row id, `update_counters`.) -/
+theorem C02_update_and_delete_move_only_the_lsn_counter (db : Engine.DB) (table : Bytes)
+    (sets : List (Bytes × Sql.VExpr)) (w : Option Sql.Cond) :
+    ResUD db (Engine.evalUpdate db table sets w) ∧ ResUD db (Engine.evalDelete db table w) :=
+  ⟨evalUpdate_counters db table sets w, evalDelete_counters db table w⟩
+
+/-- **C02.create_table_advances_the_counters_by_at_most** (`EvaluateCreateTable`, every database, every
+outcome - `ResC`): a CREATE TABLE of `n` columns never lowers a counter, raises the row-id counter by at most
+`n + 1` (its catalog rows: one in `sys_pages`, one per column in `sys_schema` - catalog rows draw from the
+same counter as user rows), the LSN counter by at most `2 n + 1`, the allocation frontier by at most
+`1 + 66 (n + 1)` pages; it writes no log record; its final flush copies the header to the data file. -/
+theorem C02_create_table_advances_the_counters_by_at_most (db : Engine.DB) (name : Bytes)
+    (cols : List Sql.ColDef) (order : List Nat) (doFlush : Bool) :
+    ResC db (Engine.evalCreateTable db name cols order doFlush)
+      (cols.length + 1) (2 * cols.length + 1) (4096 + 270336 * (cols.length + 1)) :=
+  evalCreateTable_counters db name cols order doFlush
+
+/-- **C02.recovery_raises_the_counters_to_at_most_header_and_log** (`Engine.recover`, every database - any
+crash image -, every outcome that leaves a database; `RecAdv`): after start-up recovery the row-id counter
+lies between its value in the data-file header and the maximum of that value and the keys of the logged
+INSERT records (`maxKey`); the LSN counter between the header's value and the maximum of header and logged
+LSNs plus one (`maxLsn … + 1`: the final bump; not reached when the replay ends early); the allocation
+frontier between the header's value and that value plus 66 pages per INSERT record of the log (a replay on a
+data file the pages had not reached allocates them again; in the histories of the crash theorems it
+allocates exactly what the crash lost: `C02_counters_in_checkpointed_histories_are_bounded_by_the_log`); the
+new header is written to the data file and the log is kept.  The reference is the header ON FILE: the
+in-memory counters died with the crash, and recovery can end BELOW them (a refused statement's row ids, pages
+allocated since the last flush by statements that logged nothing). -/
+theorem C02_recovery_raises_the_counters_to_at_most_header_and_log (db : Engine.DB) (o1 o2 : List Nat) :
+    match Engine.recover db o1 o2 with
+    | .ok db' => RecAdv db db'
+    | .err _ db' => RecAdv db db'
+    | _ => True :=
+  recover_counters db o1 o2
+
+/-- **C02.counters_after_any_history**: `Hist newDB w db` - `db` is reached from the database CREATE
+DATABASE leaves by ANY sequence of INSERT / UPDATE / DELETE / CREATE TABLE statements with any arguments,
+accepted or refused, flushes in any page write order, crashes (also inside a flush: `tornFlush`) followed
+by start-up recovery that succeeds or fails, and re-opening; no invariant of the store is assumed.  `w`
+counts the work: `rows` = rows of the INSERT statements run + catalog rows (columns + 1) of the CREATE
+TABLEs run; `creates`; `lsns` = LSNs consumed by UPDATE / DELETE statements; `recs` = recoveries;
+`replayed` = INSERT records in the log at each recovery, summed.  Then EVERY counter of `db` - header in
+memory, header in the data file, the key of every logged INSERT, every logged LSN (`Bnd`) - is at most
+`8 + rows` (row ids), `8 + 2 rows + lsns + recs` (LSNs), `12288 + 66 pages × (rows + replayed) + 1 page ×
+creates` (allocation frontier).  And `replayed ≤ recs × rows`: every INSERT record in the log is a row some
+INSERT statement of the history was given (`hist_insCount`).  The histories of the crash theorems (`SpecRun`,
+`Rounds`, `HistCT`) are such histories: `specRun_hist`, `rounds_hist`, `histCT_hist`; so is what the session
+does to each of its databases: `C02_row_ids_of_a_session_fit`. -/
+theorem C02_counters_after_any_history {db : Engine.DB} {w : Work} (hist : Hist newDB w db) :
+    Bnd db (8 + w.rows) (8 + 2 * w.rows + w.lsns + w.recs)
+      (12288 + 270336 * w.rows + 4096 * w.creates + 270336 * w.replayed) ∧
+    w.replayed ≤ w.recs * w.rows :=
+  ⟨hist_bounds newDB_bnd hist, hist_replayed_le hist⟩
+
+/-- non-vacuity: `CREATE TABLE t (a INT)` on the new database is such a history (two catalog rows, one table);
+a longer one, with a refused statement, a crash and a recovery, follows `C02_counters_fit_their_go_types` -/
+example : Hist newDB ⟨2, 1, 0, 0, 0⟩ tableDB := hist_tableDB
+
+/-- **C02.counters_fit_their_go_types**: after any history from CREATE DATABASE (`Hist newDB w db`, see
+`C02_counters_after_any_history`)
+* the row-id counter is a `uint32` if `w.rows ≤ 2^32 - 9 = 4294967287` (`maxRows`) - the binding bound, and
+  an exact one: `newDB` starts at 8 and every row insert that reaches the tree adds exactly one
+  (`btInsert_counters`), so a history of `2^32 - 8` such inserts leaves `lastKey = 2^32` in the model and `0`
+  in the Go code (`f.lastKey++` on a `uint32` wraps in silence; the next row ids are ids in use).  BEYOND
+  THIS BOUND THE MODEL IS NOT FAITHFUL AND C01 / C02 ("never reuses a row id") ARE NOT CLAIMED.  Note what
+  counts: rows of REFUSED inserts and catalog rows too;
+* the LSN counter is a `uint64` if `2 rows + lsns + recs < 2^64 - 8`;
+* the allocation frontier is a non-negative `int64` file offset if `66 (rows + replayed) + creates < 2^51 - 3`;
+* all three hold if the total work `rows + creates + lsns + recs + replayed` is at most `2^32 - 9`: the
+  natural numbers of the model ARE the values of the Go fields, nothing has wrapped.  (With 10^9 row
+  operations the margins are: 4.29 for the row ids, 9·10^9 for the LSNs, 3·10^4 for the frontier.) -/
+theorem C02_counters_fit_their_go_types {db : Engine.DB} {w : Work} (hist : Hist newDB w db) :
+    (w.rows ≤ 4294967287 → db.store.hdr.lastKey < 2 ^ 32) ∧
+    (2 * w.rows + w.lsns + w.recs < 2 ^ 64 - 8 → db.store.hdr.nextLSN < 2 ^ 64) ∧
+    (66 * (w.rows + w.replayed) + w.creates < 2 ^ 51 - 3 → db.store.hdr.nextFree < 2 ^ 63) ∧
+    (w.total ≤ 4294967287 →
+      db.store.hdr.lastKey < 2 ^ 32 ∧ db.store.hdr.nextLSN < 2 ^ 64 ∧ db.store.hdr.nextFree < 2 ^ 63) := by
+  obtain ⟨h1, h2, h3⟩ := counters_fit_each hist
+  exact ⟨h1, h2, h3, counters_fit hist⟩
+
+/-- non-vacuity (every state computed by the model): CREATE DATABASE; `CREATE TABLE t (a INT)`; `INSERT INTO
+t VALUES (5), ('x')` - REFUSED, and row id 11 and LSN 10 are gone -; `INSERT INTO t VALUES (5), (6)`;
+`UPDATE t SET a = 7 WHERE a = 6`; crash and recovery; flush.  Work: 6 rows (2 catalog rows, 2 + 2 rows), 1
+table, 1 UPDATE LSN, 1 recovery that replayed 2 INSERT records; the counters end at 13 / 14 / 16384, within
+`8 + 6`, `8 + 12 + 1 + 1`, `12288 + 270336 × (6 + 2) + 4096`. -/
+example : ∃ db, Hist newDB ⟨6, 1, 1, 1, 2⟩ db ∧ db.store.hdr = ⟨13, 4096, 16384, 14⟩ ∧ db.wal.length = 3 ∧
+    (⟨6, 1, 1, 1, 2⟩ : Work).total ≤ 4294967287 := by
+  obtain ⟨db, h1, h2, h3⟩ := ex_history
+  exact ⟨db, h1, h2, h3, by decide⟩
+
+/-- **C02.counters_in_checkpointed_histories_are_bounded_by_the_log**: in the histories of the crash
+theorems - `HistR r c t`: the histories `HistCT` from CREATE DATABASE (rounds of accepted statements ending
+in a flush or in a crash and its recovery, accepted CREATE TABLEs; `histCT_histR`: every `HistCT` history is
+one), with `r` recoveries, `c` catalog rows and `t` tables created - and after any further accepted
+statements, the LOG (never truncated) bounds the counters: row-id counter `≤ 8 + c + #INSERT records`, LSN
+counter `≤ 8 + 2 c + #records + r`, allocation frontier `≤ 12288 + t pages + 66 pages × (c + #INSERT
+records)`.  No term for the recoveries in the frontier: every database of such a history is checkpointed and
+a recovery re-allocates exactly the pages the crash lost (`Ckpt.recover_round_full`).  Hence with `c + t + r +
+#records ≤ 2^32 - 9` the three counters are values of their Go types. -/
+theorem C02_counters_in_checkpointed_histories_are_bounded_by_the_log {r c t : Nat} {sch : Levels}
+    {db dbN : Engine.DB} {sdb sdbN : Spec.SDB} {stmts : List EStmt}
+    (hist : HistR r c t sch db sdb) (run : SpecRun sch db sdb stmts dbN sdbN) :
+    (dbN.store.hdr.lastKey ≤ 8 + c + insCount dbN.wal ∧
+     dbN.store.hdr.nextLSN ≤ 8 + 2 * c + dbN.wal.length + r ∧
+     dbN.store.hdr.nextFree ≤ 12288 + 4096 * t + 270336 * (c + insCount dbN.wal)) ∧
+    (c + t + r + dbN.wal.length ≤ 4294967287 →
+      dbN.store.hdr.lastKey < 2 ^ 32 ∧ dbN.store.hdr.nextLSN < 2 ^ 64 ∧ dbN.store.hdr.nextFree < 2 ^ 63) := by
+  obtain ⟨h1, h2, h3⟩ := histR_run_bounds hist run
+  refine ⟨⟨h1, h2, h3⟩, fun hN => ?_⟩
+  have := insCount_le dbN.wal
+  have p32 : (2 : Nat) ^ 32 = 4294967296 := by decide
+  have p64 : (2 : Nat) ^ 64 = 18446744073709551616 := by decide
+  have p63 : (2 : Nat) ^ 63 = 9223372036854775808 := by decide
+  exact ⟨by omega, by omega, by omega⟩
+
+/-- non-vacuity: the history of `C02_rounds_example_from_create_database` (CREATE TABLE, INSERT of two rows,
+crash, recovery, UPDATE, crash, recovery), counted: two recoveries, two catalog rows, one table -/
+example : ∃ dbR2, HistR 2 2 1 schT dbR2 sdbA2 ∧ SpecRun schT dbR2 sdbA2 [] dbR2 sdbA2 := by
+  obtain ⟨db1, dbR1, db2, dbR2, pt2, tbls2, hc, run1, rec1, _, run2, rec2, _, hk, _⟩ := real_rounds_example
+  have h0 : HistR 0 (0 + (acols.length + 1)) (0 + 1) schT tableDB ([] ++ [⟨tname, acols.map Spec.colField, []⟩]) :=
+    HistR.create .nil tname acols [] rfl tname_ne_sys.1 tname_ne_sys.2 acols_fields acheck
+      (grown_newDB.create (by decide) tname rfl tname_ne_sys.1 tname_ne_sys.2 acheck).1 hc cat_tableDB
+  exact ⟨dbR2, (h0.crash run1 rec1).crash run2 rec2, .nil _ _⟩
+
+end Mkdb.Store
+
+namespace Mkdb.Session
+open Mkdb.Engine Mkdb.Store Mkdb.Sql
+
+/-- **C02.row_ids_of_a_session_fit** (the session model `Session.exec`: CREATE DATABASE, USE - which flushes
+and re-opens the database selected before -, SHOW DATABASES, SELECT, and the four DML / DDL statements on the
+selected database, accepted or refused or given with no database selected; `runAll` goes on after every
+error): after ANY list of statements from the empty session, every database of the session is reached from
+the database CREATE DATABASE leaves by a history `Hist` (so `C02_counters_after_any_history` applies to it)
+whose row-id work is at most `Σ stmtRows` - the rows of all INSERT statements plus the catalog rows (columns +
+1) of all CREATE TABLE statements of the list, to whatever database they went; its row-id counter is at most
+8 plus that, and a `uint32` if the list carries at most `2^32 - 9` such rows.  A restart of the session
+(close, start-up recovery of every database, re-open) keeps this: `restart_sessRows`. -/
+theorem C02_row_ids_of_a_session_fit (sts : List Sql.Stmt) :
+    ∀ p ∈ (runAll {} sts).1.dbs, (∃ w, Hist newDB w p.2 ∧ w.rows ≤ (sts.map stmtRows).sum) ∧
+      p.2.store.hdr.lastKey ≤ 8 + (sts.map stmtRows).sum ∧
+      ((sts.map stmtRows).sum ≤ 4294967287 → p.2.store.hdr.lastKey < 2 ^ 32) :=
+  session_row_ids_fit sts
+
+/-- a session: an INSERT before any database is selected (it counts), `CREATE DATABASE d`, `USE d`, `CREATE
+TABLE t (a INT)`, a refused and an accepted two-row INSERT -/
+def exSession : List Sql.Stmt :=
+  [.insert tname [] [[.int 1]], .createDatabase [100], .use [100], .createTable tname acols,
+   .insert tname [] [[.int 5], [.str [120]]], .insert tname [] [[.int 5], [.int 6]]]
+
+/-- the example session, computed: one database, row-id counter 13, within `8 + 7` -/
+example : (runAll {} exSession).1.dbs.map (fun p => (p.1, p.2.store.hdr.lastKey)) = [("d", 13)] ∧
+    (exSession.map stmtRows).sum = 7 := by decide +kernel
+
+end Mkdb.Session
